@@ -304,7 +304,7 @@ theorem C16_later_ops_clean (pcs : List KPc) (s : Schedule) :
   exact ⟨by simp [holdsK, h.1], h.2⟩
 
 /-- The rejected cleanup that sets the table to nil while writers still assign into it
-(`SessionManager.onClose` + `MarkTunnelClosed`; the memory storage before fix 252d971): Close, then
+(`SessionManager.onClose` + `MarkTunnelClosed`; the memory storage before fix 7b22a64): Close, then
 a write. -/
 theorem C16_later_ops_nil_table_witness :
     holdsK (run (kProg true) [0, 1] (kInit [.close, .write])).sh.panics = false := by decide
